@@ -70,9 +70,23 @@ DICTCLS = {"dict": dict, "OrderedDict": collections.OrderedDict, "MyDict": MyDic
 NODECLS = {"AnyNode": AnyNode, "Node": Node, "AttrNM": AttrNM, "LenAnyNode": LenAnyNode, "EqAnyNode": EqAnyNode}
 
 
-def attriter_of(name):
+def attriter_of(name, dictcls=dict):
     if name is None:
         return None
+    if name in ("dictmemo", "dictconst"):
+        # an attriter may hand back a ready-made mapping - also one of exactly the exporter's dictcls, and the SAME object
+        # for several nodes (a memoising attriter; a constant one for shape-only exports): it stays the callback's own
+        memo = {}
+
+        def ready_made(items):
+            pairs = [(k, v) for k, v in items if (k == "name" if name == "dictconst" else not k.startswith("_"))]  # dictconst: shape (and name) only
+            key = tuple((k, id(v)) for k, v in pairs)
+            if key not in memo:
+                memo[key] = dictcls(pairs)
+            return memo[key]
+
+        ready_made.memo = memo
+        return ready_made
     if name == "sorted":
         return lambda items: sorted(items, key=lambda kv: kv[0])
     if name == "keyfilter":
@@ -154,7 +168,7 @@ def public(node):
 def ref_export(node, attriter, childiter, dictcls, maxlevel, depth=0):
     items = public(node)
     if attriter is not None:
-        items = list(attriter(items))
+        items = attriter(items)
     data = dictcls(items)
     if maxlevel is None or depth + 1 < maxlevel:
         kids = [ref_export(c, attriter, childiter, dictcls, maxlevel, depth + 1) for c in childiter(node.children)]
@@ -254,9 +268,9 @@ def check_case(case, acc):
 
 def _tree_once(case, acc, nodes):
     start = nodes[case["start"]]
-    attriter = attriter_of(case["attriter"])
-    childiter = childiter_of(case["childiter"])
     dictcls = DICTCLS[case["dictcls"]]
+    attriter = attriter_of(case["attriter"], dictcls)
+    childiter = childiter_of(case["childiter"])
     maxlevel = case["maxlevel"]
     before = tree_state(nodes)
     kwargs = {}
@@ -274,6 +288,9 @@ def _tree_once(case, acc, nodes):
     same_export(got, exp, dictcls)
     if exporter.export(start) != got:
         raise Violation("export-repeatable", "second export differs")
+    for own in getattr(attriter, "memo", {}).values():
+        if "children" in own or any(is_bookkeeping(k) for k in own):
+            raise Violation("callback-data-modified", "a mapping handed over by the attriter was modified by the export: %r" % (list(own),))
     # options passed by position, in the order of the released signature (dictcls, attriter, childiter, maxlevel)
     same_export(DictExporter(dictcls, attriter, childiter, maxlevel).export(start), exp, dictcls, path="root (positional constructor arguments)")
     isomorphic(DictImporter(NODECLS[case["cls"]]).import_(got), exp, NODECLS[case["cls"]])
@@ -377,6 +394,29 @@ def check_dict_case(case, acc):
     want = strip_empty_children(data)
     if back != want:
         raise Violation("import-export", "export(import_(d)) = %r, expected %r" % (back, want))
+    # the same dictionary object (or the same children list) at several places of a document - as YAML aliases and re-used
+    # template dictionaries produce it - is just repeated data: every occurrence becomes a node of its own
+    def aliased(d, pool):
+        out = dict(d)
+        kids = [aliased(c, pool) for c in d.get("children", [])]
+        if "children" in d:
+            for i, kid in enumerate(kids):
+                twin = next((x for x in pool if x == kid), None)
+                if twin is not None:
+                    kids[i] = twin
+                else:
+                    pool.append(kid)
+            out["children"] = kids
+        return out
+
+    pool = []
+    shared = aliased(data, pool)
+    if case.get("twice") and "children" in shared and shared["children"]:
+        shared["children"] = shared["children"] + [shared["children"][0]]  # one sub-dictionary listed twice
+        data = dict(data, children=list(data["children"]) + [data["children"][0]])
+    twin_root = DictImporter(nodecls=nodecls).import_(shared)
+    isomorphic(twin_root, data, nodecls)
+    acc.tag("documents_with_shared_subdictionaries", len(pool) < count_nodes(case["data"]) - 1 or bool(case.get("twice")))
     acc.nontrivial(count_nodes(case["data"]) >= 3 and has_empty_children(case["data"]))
     acc.tag("dict_cases")
 
@@ -385,7 +425,7 @@ def check_dict_case(case, acc):
 KEY = st.one_of(
     st.text(alphabet="abcxyz_", min_size=1, max_size=4),
     st.text(alphabet="abc _-1é.", min_size=1, max_size=4),
-    st.sampled_from(["_hidden", "__x", "id", "a b", "1", "Name", "_NodeMixin", "child", "parents", "_NodeMixin__rev", "_NodeMixin__x", "_LightNodeMixin__rev"]),
+    st.sampled_from(["target", "target", "separator", "_ref", "node", "_hidden", "__x", "id", "a b", "1", "Name", "_NodeMixin", "child", "parents", "_NodeMixin__rev", "_NodeMixin__x", "_LightNodeMixin__rev"]),
     # names of read-only NodeMixin properties are ordinary attribute keys for export/import (they live in __dict__)
     st.sampled_from(["size", "depth", "height", "path", "root", "leaves", "is_leaf", "siblings", "descendants", "ancestors"]),
 ).filter(lambda k: k not in ("parent", "children", "self", "name"))
@@ -418,7 +458,7 @@ def dict_spec(draw, cls, depth=0):
 def random_cases(draw):
     cls = draw(st.sampled_from(["AnyNode", "AnyNode", "Node", "AttrNM", "LenAnyNode", "EqAnyNode"]))
     if draw(st.integers(0, 4)) == 0:
-        return {"kind": "dict", "cls": cls, "data": draw(dict_spec(cls))}
+        return {"kind": "dict", "cls": cls, "data": draw(dict_spec(cls)), "twice": draw(st.booleans())}
     shape = draw(strategies.tree_shapes(max_nodes=25))
     size = shapes.shape_size(forest.to_tuple(shape))
     return {
@@ -427,7 +467,7 @@ def random_cases(draw):
         "shape": shape,
         "attrs": [draw(attr_list(cls)) for _ in range(size)],
         "start": draw(st.one_of(st.just(0), st.integers(0, size - 1))),
-        "attriter": draw(st.sampled_from([None, "sorted", "keyfilter", "genfilter"])),
+        "attriter": draw(st.sampled_from([None, "sorted", "keyfilter", "genfilter", "dictmemo", "dictconst"])),
         "childiter": draw(st.sampled_from(["list", "reversed", "filter", "tail", "iter", "revgen", "memolist"])),
         "dictcls": draw(st.sampled_from(["dict", "OrderedDict", "MyDict"])),
         "maxlevel": draw(st.one_of(st.none(), st.integers(0, 6), st.integers(0, 6), st.sampled_from([0.5, 1.5, 2.5, 3.5, 2.0]))),
@@ -447,7 +487,7 @@ def _enum_cases(max_nodes, index, count):
             if k % count != index:
                 continue
             for maxlevel in [None] + list(range(0, height + 3)) + sorted({1.5, max(height - 0.5, 0.5)}):
-                for attriter in (None, "sorted", "keyfilter"):
+                for attriter in (None, "sorted", "keyfilter", "dictmemo", "dictconst"):
                     for childiter in ("list", "reversed", "filter", "tail", "iter", "revgen", "memolist"):
                         for dictcls in ("dict", "OrderedDict", "MyDict"):
                             yield {"kind": "tree", "cls": ["AnyNode", "Node", "AttrNM", "LenAnyNode", "EqAnyNode"][k % 5], "shape": forest.to_list(shape), "attrs": [pattern[(i + k) % 3] for i in range(size)], "start": start, "attriter": attriter, "childiter": childiter, "dictcls": dictcls, "maxlevel": maxlevel}
